@@ -12,6 +12,7 @@ import Mathlib.Tactic.Ring
 import Mathlib.Tactic.Linarith
 import Mathlib.Tactic.FieldSimp
 import Mathlib.Tactic.Positivity
+import Mathlib.Algebra.Order.Floor.Ring
 
 namespace Flowdyn.C20
 open Flowdyn Finset
@@ -116,6 +117,24 @@ theorem refined_zone2 (n : ℕ) (L ratio a b : α) (nc1 : ℕ) (i : ℕ) (h1 : n
     rw [show i + 1 - nc1 = (i - nc1) + 1 by omega]; push_cast; ring
   rw [e]
   ring
+/-- the implementation's count `nc1 = int(n a/(a+b) * (1+1e-12))` IS the whole number of cells `k` whenever the requested
+zone proportion corresponds to one (`k (a+b) = n a`, any `k < 10^12`): the hypothesis `hwhole` of `refined_ratio` and
+`refined_increasing` is met by the value the constructor computes. -/
+theorem refined_nc1_whole (n k : ℕ) (a b : ℚ) (hab : 0 < a + b) (hk : (k : ℚ) * (a + b) = n * a)
+    (hlt : k < 10 ^ 12) : refinedNc1 n a b = k := by
+  have hq : (n : ℚ) * a / (a + b) = k := by rw [← hk]; field_simp
+  have hk0 : (0 : ℚ) ≤ k := Nat.cast_nonneg k
+  have hk1 : (k : ℚ) < 10 ^ 12 := by exact_mod_cast hlt
+  have hfl : ⌊(k : ℚ) * (1 + 1 / 10 ^ 12)⌋ = (k : ℤ) := by
+    rw [Int.floor_eq_iff]
+    constructor
+    · push_cast; nlinarith
+    · push_cast
+      have : (k : ℚ) * (1 / 10 ^ 12) < 1 := by
+        rw [mul_one_div, div_lt_one (by positivity)]; exact hk1
+      nlinarith
+  simp only [refinedNc1, hq, hfl, Int.toNat_natCast]
+
 /-- whole number of cells (`nc1 (a+b) = n a` exactly): the zone size ratio is the requested `ratio` -/
 theorem refined_ratio (n : ℕ) (L ratio a b : α) (nc1 : ℕ) (h1 : nc1 < n) (hn : 0 < n)
     (ha : 0 < a) (hb : 0 < b) (hr : 0 < ratio) (hwhole : (nc1 : α) * (a + b) = n * a) :
